@@ -29,16 +29,16 @@ func main() { vlib.Run("C38", run) }
 var base string // per-process scratch root (under the driver's work dir)
 
 func run(c *vlib.Ctx) {
-	c.Rule("per case a fresh sandbox S/{outside/*,w/side/*,w/tgt-evil,w/tgt} (victim files/dirs/symlinks with fixed modes and mtimes; target absent / empty dir / pre-populated with files, dirs and symlinks leading outside / a file / a symlink to an outside dir or file / dangling) and an archive of 1-10 entries: root + names from a pool (3 names in the smallpool strata so that one name reappears with another type; '..', '.', empty, absolute, NUL, unicode, wrong root in the hostile stratum), types dir/file/symlink, symlink targets absolute/relative to outside victims, inside, dangling, modes 0..07777, mtimes unset/sec/ns, optional truncation. smallpool-clean never emits a symlink under a name an earlier entry used for a directory (trigger of the known deferred-chmod finding). distinct = FNV of target variant + entry list; non-trivial = Extract changed the target subtree AND the case has a hostile feature (symlink resolving outside, '..'/absolute/foreign name, a name reused with another type, or an entry path through a pre-existing symlink)")
+	c.Rule("per case a fresh sandbox S/{outside/*,w/side/*,w/tgt-evil,w/tgt} (victim files/dirs/symlinks with fixed modes and mtimes; target absent / empty dir / pre-populated with files, dirs and symlinks leading outside / a file / a symlink to an outside dir or file / dangling) and an archive of 1-10 entries: root + names from a pool (3 names in the smallpool strata so that one name reappears with another type; '..', '.', empty, absolute, NUL, unicode, wrong root in the hostile stratum), types dir/file/symlink, symlink targets absolute/relative to outside victims, inside, dangling, modes 0..07777, mtimes unset/sec/ns, optional truncation. Stratum dir-replaced builds the multi-step shape 'directory X extracted and kept empty -> symlink X (to an outside directory, absolute or ../) replaces it -> file/dir/symlink entries addressed below X (new names and names of existing victim files)' at depth 1-3 with unrelated entries interleaved; smallpool reaches the same shape by chance and by steering. distinct = FNV of target variant + entry list; non-trivial = Extract changed the target subtree AND the case has a hostile feature (symlink resolving outside, '..'/absolute/foreign name, a name reused with another type, or an entry path through a pre-existing symlink)")
 	base = c.TempDir("c38-")
 	defer os.RemoveAll(base)
 	q := c.N(1500, 40000)
 	c.Cases("hostile", q*4/10, func(k *vlib.Case) { oneCase(k, genHostile) })
-	c.Cases("smallpool", q*3/10, func(k *vlib.Case) { oneCase(k, genSmall(false)) })
-	c.Cases("smallpool-clean", q*3/10, func(k *vlib.Case) { oneCase(k, genSmall(true)) })
-	// hand-made minimal archives of the known deferred-chmod finding (kept so
-	// that every run shows whether the defect is still there)
-	c.Cases("witness", 4, func(k *vlib.Case) { oneCase(k, genWitness) })
+	c.Cases("smallpool", q*3/10, func(k *vlib.Case) { oneCase(k, genSmall) })
+	c.Cases("dir-replaced", q*3/10, func(k *vlib.Case) { oneCase(k, genReplaced) })
+	// hand-made minimal archives: the four shapes of the (since fixed)
+	// deferred-chmod defect and three "entry below a replaced directory" shapes
+	c.Cases("witness", 7, func(k *vlib.Case) { oneCase(k, genWitness) })
 }
 
 // ---------------------------------------------------------------------------
@@ -558,58 +558,151 @@ func dirsOf(root string, pre map[string]byte, es []entry) []string {
 	return out
 }
 
-func genSmall(clean bool) gen {
+// outsideDirs are the victim directories (relative to S); childNames are file
+// names that exist in one of them (so that an entry below a symlink to such a
+// directory would OVERWRITE a victim) plus fresh names.
+var outsideDirs = []string{"outside/vdir", "outside/emptydir", "w/side", "w/tgt-evil", "outside", "outside/vdir", "w/side"}
+var childNames = []string{"inner.txt", "peer.txt", "x", "victim.txt", "secret", "new", "d", "e", "f", "vdir", "emptydir"}
+
+// replacedDirs lists names that an earlier entry of the archive created as a
+// directory and whose most recent entry is a symlink (the directory was
+// replaced while still empty).
+func replacedDirs(es []entry) []string {
+	wasDir := map[string]bool{}
+	last := map[string]byte{}
+	for _, e := range es {
+		if e.typ == tar.TypeDir {
+			wasDir[e.name] = true
+		}
+		last[e.name] = e.typ
+	}
+	var out []string
+	for n, t := range last {
+		if t == tar.TypeSymlink && wasDir[n] {
+			out = append(out, n)
+		}
+	}
+	sort.Strings(out)
+	return out
+}
+
+func genSmall(k *vlib.Case, s *sandbox) (string, []entry, int, map[string]byte) {
 	pool := []string{"d", "e", "f"}
-	return func(k *vlib.Case, s *sandbox) (string, []entry, int, map[string]byte) {
-		r := k.R
-		variant, pre := s.prepopulate(r, vlib.Pick(r, []int{0, 0, 0, 1, 1, 6, 6, 6, 6, 6, 2, 3}), pool)
-		es := []entry{{name: "r", typ: tar.TypeDir, mode: genMode(r), mtime: genMtime(r)}}
-		n := r.Range(2, 9)
-		dirNames := map[string]bool{}
-		for i := 0; i < n; i++ {
-			var name string
-			switch x := r.Intn(10); {
-			case x < 3 && len(es) > 1:
-				name = es[1+r.Intn(len(es)-1)].name // reuse a name, probably with another type
-			case x < 9:
-				name = vlib.Pick(r, dirsOf("r", pre, es)) + "/" + vlib.Pick(r, pool)
-			default: // parent possibly missing / not a directory
-				name = "r/" + vlib.Pick(r, pool) + "/" + vlib.Pick(r, pool)
-			}
-			e := entry{name: name, mode: genMode(r), mtime: genMtime(r)}
-			switch x := r.Intn(10); {
-			case x < 4:
-				e.typ = tar.TypeDir
-			case x < 7:
-				e.typ = tar.TypeSymlink
-			default:
-				e.typ = tar.TypeReg
-			}
-			lt, known := lastTypes("r", pre, es)[name]
-			e.typ = steerType(r, e.typ, lt, known)
-			if clean && e.typ == tar.TypeSymlink && dirNames[name] {
-				e.typ = tar.TypeReg
-			}
-			switch e.typ {
-			case tar.TypeDir:
-				dirNames[name] = true
-			case tar.TypeSymlink:
-				out := filepath.Join(s.target, strings.TrimPrefix(name, "r/"))
+	r := k.R
+	variant, pre := s.prepopulate(r, vlib.Pick(r, []int{0, 0, 0, 1, 1, 6, 6, 6, 6, 6, 2, 3}), pool)
+	es := []entry{{name: "r", typ: tar.TypeDir, mode: genMode(r), mtime: genMtime(r)}}
+	n := r.Range(2, 9)
+	for i := 0; i < n; i++ {
+		var name string
+		rep := replacedDirs(es)
+		switch x := r.Intn(20); {
+		case x < 5 && len(es) > 1:
+			name = es[1+r.Intn(len(es)-1)].name // reuse a name, probably with another type
+		case x < 9 && len(rep) > 0: // below a directory that a symlink has replaced
+			name = vlib.Pick(r, rep) + "/" + vlib.Pick(r, childNames)
+		case x < 18:
+			name = vlib.Pick(r, dirsOf("r", pre, es)) + "/" + vlib.Pick(r, pool)
+		default: // parent possibly missing / not a directory
+			name = "r/" + vlib.Pick(r, pool) + "/" + vlib.Pick(r, pool)
+		}
+		e := entry{name: name, mode: genMode(r), mtime: genMtime(r)}
+		switch x := r.Intn(10); {
+		case x < 4:
+			e.typ = tar.TypeDir
+		case x < 7:
+			e.typ = tar.TypeSymlink
+		default:
+			e.typ = tar.TypeReg
+		}
+		lt, known := lastTypes("r", pre, es)[name]
+		e.typ = steerType(r, e.typ, lt, known)
+		switch e.typ {
+		case tar.TypeSymlink:
+			out := filepath.Join(s.target, strings.TrimPrefix(name, "r/"))
+			if known && lt == tar.TypeDir && r.Chance(2, 3) { // replacing a directory: aim at an outside directory
+				e.link = s.linkTo(filepath.Dir(out), vlib.Pick(r, outsideDirs), r.Chance(1, 3))
+			} else {
 				e.link = genLink(r, s, filepath.Dir(out), pool)
-			case tar.TypeReg:
-				e.body = genBody(r)
+			}
+		case tar.TypeReg:
+			e.body = genBody(r)
+		}
+		es = append(es, e)
+	}
+	trunc := -1
+	if r.Chance(1, 12) {
+		trunc = r.Intn(1 << 20)
+	}
+	return variant, es, trunc, pre
+}
+
+// genReplaced builds the multi-step shape "directory X extracted (and kept
+// empty) -> symlink X replaces it -> entries addressed below X", at depth 1-3,
+// with absolute and ../ link targets to outside directories, children that are
+// new files, overwrites of existing victim file names, directories and
+// symlinks, and unrelated entries interleaved at every step.
+func genReplaced(k *vlib.Case, s *sandbox) (string, []entry, int, map[string]byte) {
+	pool := []string{"d", "e", "f"}
+	r := k.R
+	variant, pre := s.prepopulate(r, vlib.Pick(r, []int{0, 0, 0, 1, 1, 6, 6}), pool)
+	es := []entry{{name: "r", typ: tar.TypeDir, mode: genMode(r), mtime: genMtime(r)}}
+	noise := func(avoid string) {
+		for r.Chance(1, 3) {
+			name := vlib.Pick(r, dirsOf("r", pre, es)) + "/" + vlib.Pick(r, pool)
+			if name == avoid || strings.HasPrefix(name, avoid+"/") || strings.HasPrefix(avoid, name+"/") {
+				continue
+			}
+			e := entry{name: name, mode: genMode(r), mtime: genMtime(r), typ: tar.TypeReg, body: genBody(r)}
+			if lt, known := lastTypes("r", pre, es)[name]; !known || lt == tar.TypeDir {
+				if r.Bool() {
+					e.typ, e.body = tar.TypeDir, nil
+				}
 			}
 			es = append(es, e)
 		}
-		trunc := -1
-		if r.Chance(1, 12) {
-			trunc = r.Intn(1 << 20)
-		}
-		return variant, es, trunc, pre
 	}
+	depth := r.Range(1, 3)
+	x := "r"
+	for d := 1; d <= depth; d++ {
+		x += "/" + vlib.Pick(r, pool)
+		if d < depth { // parents of X
+			es = append(es, entry{name: x, typ: tar.TypeDir, mode: vlib.Pick(r, []int64{0, 0o755, 0o700, 0o777}), mtime: genMtime(r)})
+		}
+	}
+	noise(x)
+	es = append(es, entry{name: x, typ: tar.TypeDir, mode: genMode(r), mtime: genMtime(r)})
+	noise(x)
+	out := filepath.Join(s.target, strings.TrimPrefix(x, "r/"))
+	l := entry{name: x, typ: tar.TypeSymlink, mode: genMode(r), mtime: genMtime(r)}
+	if r.Chance(5, 6) {
+		l.link = s.linkTo(filepath.Dir(out), vlib.Pick(r, outsideDirs), r.Chance(2, 5))
+	} else {
+		l.link = genLink(r, s, filepath.Dir(out), pool)
+	}
+	es = append(es, l)
+	noise(x)
+	for i, n := 0, r.Range(1, 3); i < n; i++ {
+		name := x + "/" + vlib.Pick(r, childNames)
+		if r.Chance(1, 5) {
+			name += "/" + vlib.Pick(r, childNames)
+		}
+		e := entry{name: name, mode: genMode(r), mtime: genMtime(r)}
+		switch y := r.Intn(10); {
+		case y < 5:
+			e.typ, e.body = tar.TypeReg, genBody(r)
+		case y < 8:
+			e.typ = tar.TypeDir
+		default:
+			e.typ = tar.TypeSymlink
+			e.link = genLink(r, s, out, pool)
+		}
+		es = append(es, e)
+		noise(x)
+	}
+	return variant, es, -1, pre
 }
 
-// genWitness: the four minimal shapes of the deferred-chmod defect.
+// genWitness: minimal shapes of defects this check has seen (regression cases).
 func genWitness(k *vlib.Case, s *sandbox) (string, []entry, int, map[string]byte) {
 	variant, pre := s.prepopulate(k.R, 0, nil)
 	tm := time.Unix(1500000000, 0)
@@ -618,7 +711,16 @@ func genWitness(k *vlib.Case, s *sandbox) (string, []entry, int, map[string]byte
 		return entry{name: n, typ: tar.TypeSymlink, mode: 0o777, mtime: tm, link: s.linkTo(filepath.Join(s.target, fromDir), victim, abs)}
 	}
 	var es []entry
-	switch k.Index % 4 {
+	f := func(n string) entry {
+		return entry{name: n, typ: tar.TypeReg, mode: 0o644, mtime: tm, body: []byte("payload")}
+	}
+	switch k.Index % 7 {
+	case 4: // new file below a directory that a symlink (../) replaced
+		es = []entry{d("r", 0o755), d("r/d", 0o755), l("r/d", "", "outside/emptydir", false), f("r/d/new")}
+	case 5: // overwrite of an existing outside file, absolute link, depth 2
+		es = []entry{d("r", 0o755), d("r/e", 0o755), d("r/e/d", 0o755), l("r/e/d", "e", "outside/vdir", true), f("r/e/d/inner.txt")}
+	case 6: // new directory below the replaced directory
+		es = []entry{d("r", 0o755), d("r/d", 0o755), l("r/d", "", "w/side", false), d("r/d/sub", 0o700)}
 	case 0: // applied by doUpdates at the end
 		es = []entry{d("r", 0o755), d("r/d", 0o777), l("r/d", "", "outside/victim.txt", false)}
 	case 1: // absolute link, directory victim
